@@ -142,6 +142,9 @@ def scaled_parameters(
                     "Non-unit-scaling parameter (no mup_type),"
                     f" shape {tuple(param.shape)}"
                 )
+            elif isinstance(param_lr, Tensor):
+                # (unscaled, but still its own tensor: schedulers update it in place)
+                param_lr = param_lr.clone()
             param_weight_decay = group["weight_decay"]
             if independent_weight_decay:
                 # Note: only independent of peak LR, not of schedule
